@@ -273,12 +273,119 @@ theorem C26_witness_mapping_outside_codespace :
     isValidCode m [0x41] = false ∧ map m [0x41] = some [0x00, 0x61] := by
   decide +kernel
 
-/- FULL (false of the code): `rangeContains (lo, hi) c ↔ c has the length of lo, hi and every byte of c
-   lies between the corresponding bytes of lo and hi` (Adobe TN 5014). -/
-/-- Witness: `<8200>` is accepted by the code space `<8140> <9FFC>` (second byte 0x00 < 0x40). -/
+/-! ### code space membership — byte-wise (Adobe TN 5014), full since the repair of `CodeRange::contains` -/
+
+theorem bytesWithin_iff (c lo hi : Bytes) (h1 : c.length = lo.length) (h2 : c.length = hi.length) :
+    bytesWithin c lo hi = true ↔
+      ∀ i, i < c.length → lo.getD i 0 ≤ c.getD i 0 ∧ c.getD i 0 ≤ hi.getD i 0 := by
+  induction c generalizing lo hi with
+  | nil => simp [bytesWithin]
+  | cons x xs ih =>
+    cases lo with
+    | nil => simp at h1
+    | cons l ls =>
+      cases hi with
+      | nil => simp at h2
+      | cons h hs =>
+        simp only [List.length_cons, Nat.add_right_cancel_iff] at h1 h2
+        simp only [bytesWithin, Bool.and_eq_true, decide_eq_true_eq, ih ls hs h1 h2]
+        constructor
+        · rintro ⟨⟨a, b⟩, r⟩ i hi'
+          cases i with
+          | zero => exact ⟨a, b⟩
+          | succ j =>
+            simp only [List.length_cons, Nat.add_lt_add_iff_right] at hi'
+            simpa using r j hi'
+        · intro H
+          refine ⟨by simpa using H 0 (by simp), fun i hi' => ?_⟩
+          simpa using H (i + 1) (by simpa using hi')
+
+/-- `CodeRange::contains`: a code is in a code-space range iff it has the length of both bounds and
+EVERY byte lies between the corresponding bytes of `lo` and `hi` — for codes of any length. -/
+theorem C26_codespace_bytewise (lo hi c : Bytes) :
+    rangeContains (lo, hi) c = true ↔
+      (c.length = lo.length ∧ c.length = hi.length ∧
+        ∀ i, i < c.length → lo.getD i 0 ≤ c.getD i 0 ∧ c.getD i 0 ≤ hi.getD i 0) := by
+  unfold rangeContains
+  by_cases h1 : c.length = lo.length
+  · by_cases h2 : c.length = hi.length
+    · have hb := bytesWithin_iff c lo hi h1 h2
+      have hc : (c.length != lo.length || c.length != hi.length) = false := by
+        simp only [Bool.or_eq_false_iff, bne_eq_false_iff_eq]; exact ⟨h1, h2⟩
+      rw [hc]
+      simp only [Bool.false_eq_true, if_false]
+      rw [hb]
+      exact ⟨fun h => ⟨h1, h2, h⟩, fun h => h.2.2⟩
+    · have hc : (c.length != lo.length || c.length != hi.length) = true := by
+        simp only [Bool.or_eq_true, bne_iff_ne, ne_eq]; exact Or.inr h2
+      rw [hc]
+      simp only [if_true, Bool.false_eq_true, false_iff]
+      exact fun h => h2 h.2.1
+  · have hc : (c.length != lo.length || c.length != hi.length) = true := by
+      simp only [Bool.or_eq_true, bne_iff_ne, ne_eq]; exact Or.inl h1
+    rw [hc]
+    simp only [if_true, Bool.false_eq_true, false_iff]
+    exact fun h => h1 h.1
+
+example : rangeContains ([0x81, 0x40], [0x9F, 0xFC]) [0x82, 0x41] = true ∧
+    rangeContains ([0x81, 0x40], [0x9F, 0xFC]) [0x82, 0x00] = false := by decide
+
+/-- `is_valid_code` without `usecmap`: some code-space range contains the code byte-wise. -/
+theorem C26_valid_code_iff (m : CMap) (c : Bytes) (hi : m.inherited = none) :
+    isValidCode m c = true ↔ ∃ r ∈ m.codespace, rangeContains r c = true := by
+  simp [isValidCode, inheritedIs, hi]
+
+example : isValidCode { codespace := [([0x00], [0x80]), ([0x81, 0x40], [0x9F, 0xFC])] } [0x81, 0x40] = true := by decide
+
+/-- Regression witness (the definition before the repair): the lexicographic interval accepted
+`<8200>` for the code space `<8140> <9FFC>` (second byte 0x00 < 0x40); the repaired one rejects it. -/
 theorem C26_witness_codespace_lexicographic :
-    rangeContains ([0x81, 0x40], [0x9F, 0xFC]) [0x82, 0x00] = true ∧ ¬ (0x40 ≤ 0x00) := by
+    rangeContainsOld ([0x81, 0x40], [0x9F, 0xFC]) [0x82, 0x00] = true ∧ ¬ (0x40 ≤ 0x00) ∧
+    rangeContains ([0x81, 0x40], [0x9F, 0xFC]) [0x82, 0x00] = false := by
   decide
+
+/-! ### `parse_hex` — total since the repair -/
+
+theorem mem_dropWhileEq {c x : Nat} {l : Bytes} (h : x ∈ l) (hne : x ≠ c) : x ∈ dropWhileEq c l := by
+  induction l with
+  | nil => simp at h
+  | cons a r ih =>
+    simp only [dropWhileEq]
+    split
+    · rename_i hac
+      simp only [beq_iff_eq] at hac
+      simp only [List.mem_cons] at h
+      rcases h with rfl | h
+      · exact absurd hac hne
+      · exact ih h
+    · exact h
+
+/-- A non-ASCII char (other than the two Latin-1 white-space chars U+0085, U+00A0, which are dropped)
+anywhere between the angle brackets makes `parse_hex` return `None` — the token is skipped, nothing
+is sliced. -/
+theorem C26_parseHex_nonascii_none (s : Bytes) (c : Nat) (hc : c ∈ s) (h80 : 0x80 ≤ c)
+    (hws : isWsChar c = false) : parseHex s = none := by
+  have m1 : c ∈ dropWhileEq 0x3C s := mem_dropWhileEq hc (by omega)
+  have m2 : c ∈ (dropWhileEq 0x3E (dropWhileEq 0x3C s).reverse).reverse := by
+    rw [List.mem_reverse]
+    exact mem_dropWhileEq (by simpa using m1) (by omega)
+  have m3 : c ∈ ((dropWhileEq 0x3E (dropWhileEq 0x3C s).reverse).reverse).filter fun c => !isWsChar c := by
+    exact List.mem_filter.mpr ⟨m2, by simp [hws]⟩
+  have hany : (((dropWhileEq 0x3E (dropWhileEq 0x3C s).reverse).reverse).filter fun c => !isWsChar c).any
+      (fun c => decide (c ≥ 0x80)) = true := by
+    rw [List.any_eq_true]
+    exact ⟨c, m3, by simpa using h80⟩
+  simp only [parseHex, hany, if_true]
+
+example : parseHex [0x34, 0xC3, 0xA9, 0x34] = none ∧ isWsChar 0xC3 = false := by decide
+
+/-- Regression witness (the definition before the repair): on `<4é4>` — the tokenizer hands the UTF-8
+bytes 34 C3 A9 34 over as four chars — the old `parse_hex` sliced its `String` at byte offset 2,
+inside `Ã`: a panic.  The repaired function answers `None`, and the CMap text parses. -/
+theorem C26_witness_parseHex_old_panics :
+    parseHexOld [0x34, 0xC3, 0xA9, 0x34] = .panic ∧ parseHex [0x34, 0xC3, 0xA9, 0x34] = none ∧
+    (parseText (str "1 beginbfchar <4" ++ [0xC3, 0xA9] ++ str "4> <0041> endbfchar")).isSome = true := by
+  decide +kernel
 
 /-! ### array form, tokenizer, builder: concrete end-to-end instances (kernel-evaluated) -/
 
